@@ -1,0 +1,8 @@
+//go:build !verif
+// +build !verif
+
+package monitor
+
+// verifNewMonitor is the place where the correspondence harness of property
+// C19 (build tag "verif") learns of a monitor made inside simul.RunTest.
+func verifNewMonitor(m *Monitor) *Monitor { return m }
